@@ -217,7 +217,7 @@ pub fn bad_menu(cfg: &Cfg) -> Vec<Op> {
     }
     ops.push(Op::Bad(Bad::WrapInShort(0, 1)));
     ops.push(Op::Bad(Bad::WrapInShort((n - 1) as u8, 3)));
-    for c in 0..n.min(2) as u8 {
+    for c in 0..n.min(3) as u8 {
         for how in 1..=3u8 {
             ops.push(Op::Bad(Bad::InShort(c, how)));
             ops.push(Op::Bad(Bad::OutShort(c, how)));
